@@ -655,10 +655,13 @@ class TdmsChannel(object):
             Set this parameter to False to return raw unscaled data.
             For DAQmx data a dictionary of scaler id to raw scaler data will be returned.
         """
-        if self._raw_data is None:
-            raw_data = self._read_channel_data(offset, length)
-        else:
+        if self._raw_data is not None:
             raw_data = slice_raw_data(self._raw_data, offset, length)
+        elif self.data_type is None:
+            # Channel has no data so there is nothing to read
+            raw_data = None
+        else:
+            raw_data = self._read_channel_data(offset, length)
 
         if raw_data is None:
             dtype = self.dtype if scaled else self._raw_data_dtype()
